@@ -427,8 +427,13 @@ def finite_horizon_dp(
 				# Initialize cost.
 				cost = 0.0
 
-				# Calculate n(y) and \bar{n}(y). 
-				n, n_bar = lf.normal_loss(y, demand_mean[t], demand_sd[t])
+				# Calculate n(y) and \bar{n}(y) under the demand distribution of period t.
+				if demand_source[t].type == 'N':
+					n, n_bar = lf.normal_loss(y, demand_mean[t], demand_sd[t])
+				elif demand_source[t].is_discrete:
+					n, n_bar = lf.discrete_loss(y, demand_source[t].demand_distribution)
+				else:
+					n, n_bar = lf.continuous_loss(y, demand_source[t].demand_distribution)
 
 				# Calculate current-period (newsvendor) cost.
 				cost += holding_cost[t] * n_bar + stockout_cost[t] * n
